@@ -12,7 +12,7 @@ r = subprocess.run(['git', '-C', '/repo', 'apply', patch], capture_output=True, 
 if r.returncode != 0:
     r = subprocess.run(['git', '-C', '/repo', 'apply', '--3way', patch], capture_output=True, text=True)
     if r.returncode != 0:
-        print('PATCH DOES NOT APPLY', r.stderr[-500:]); subprocess.run(['git', '-C', '/repo', 'checkout', '--', '.']); sys.exit(3)
+        print('PATCH DOES NOT APPLY', r.stderr[-500:]); subprocess.run(['git', '-C', '/repo', 'reset', '-q', '--hard', 'HEAD']); sys.exit(3)
     subprocess.run(['git', '-C', '/repo', 'reset', '-q'])
 try:
     for pid in pids:
@@ -20,4 +20,4 @@ try:
         lines = [l for l in p.stdout.splitlines() if not l.startswith('KNOWN-FINDING')]
         print('%s rc=%d :: %s' % (pid, p.returncode, ' | '.join(l[:160] for l in lines[-3:])))
 finally:
-    subprocess.run(['git', '-C', '/repo', 'checkout', '--', '.'])
+    subprocess.run(['git', '-C', '/repo', 'reset', '-q', '--hard', 'HEAD'])
